@@ -1,5 +1,5 @@
 use crate::{oracle, Failure, Rng};
-use temporal_rs::options::Disambiguation;
+use temporal_rs::options::{Disambiguation, OffsetDisambiguation};
 use temporal_rs::provider::{TimeZoneOffset, TimeZoneProvider, TransitionDirection};
 use temporal_rs::iso::IsoDateTime;
 use temporal_rs::time::EpochNanoseconds;
@@ -95,6 +95,44 @@ fn check(p: &Synth, local: i128, dis: Disambiguation, tag: &str, fails: &mut Vec
     }
 }
 
+/// offset options (C13 last sentence): a date-time string with an explicit offset / Z and a bracketed synthetic zone
+fn check_offset(p: &Synth, local: i128, dis: Disambiguation, rng: &mut Rng, fails: &mut Vec<Failure>) {
+    let Some(dt) = dt_of(local) else { return };
+    if dt.year() < 0 || dt.year() > 9999 { return; }
+    let cands = p.possible(local);
+    // an offset taken from a candidate, from the other side of the transition, or arbitrary
+    let mut offs: Vec<i64> = cands.iter().map(|c| ((local - c) / 1_000_000_000) as i64).collect();
+    offs.push(p.initial); for (_, o) in &p.transitions { offs.push(*o); }
+    offs.push(rng.range(-14 * 60, 14 * 60) as i64 * 60);
+    let off = offs[(rng.next() % offs.len() as u64) as usize];
+    let base = format!("{:04}-{:02}-{:02}T{:02}:{:02}:{:02}.{:03}{:03}{:03}", dt.year(), dt.month(), dt.day(), dt.hour(), dt.minute(), dt.second(), dt.millisecond(), dt.microsecond(), dt.nanosecond());
+    let offtxt = format!("{}{:02}:{:02}", if off < 0 { '-' } else { '+' }, off.abs() / 3600, off.abs() / 60 % 60);
+    for (optname, opt) in [("use", OffsetDisambiguation::Use), ("ignore", OffsetDisambiguation::Ignore), ("prefer", OffsetDisambiguation::Prefer), ("reject", OffsetDisambiguation::Reject)] {
+        for z in [false, true] {
+            let text = format!("{base}{}[Synthetic/Zone]", if z { "Z".to_string() } else { offtxt.clone() });
+            let off_ns = off as i128 * 1_000_000_000;
+            let want: Option<i128> = if z { Some(local) } else {
+                match opt {
+                    OffsetDisambiguation::Use => Some(local - off_ns),
+                    OffsetDisambiguation::Ignore => expected(p, local, dis),
+                    _ => {
+                        if let Some(c) = cands.iter().find(|c| local - **c == off_ns) { Some(*c) }
+                        else if matches!(opt, OffsetDisambiguation::Reject) { None } else { expected(p, local, dis) }
+                    }
+                }
+            };
+            let input = format!("offset-option text={text} offset={optname} disambiguation={dis:?} initial={} transitions={:?}", p.initial, p.transitions);
+            let r = catch_unwind(std::panic::AssertUnwindSafe(|| ZonedDateTime::from_str_with_provider(&text, dis, opt, p).map(|z| z.epoch_nanoseconds().as_i128())));
+            match r {
+                Err(_) => fails.push(Failure { what: "offset option: panicked".into(), input, expected: format!("{want:?}"), observed: "panic".into() }),
+                Ok(Ok(got)) => if Some(got) != want { fails.push(Failure { what: "offset option: instant".into(), input, expected: format!("{want:?}"), observed: format!("{got}") }); },
+                Ok(Err(e)) => if want.is_some() { fails.push(Failure { what: "offset option: error".into(), input, expected: format!("{want:?}"), observed: format!("{e:?}") }); },
+            }
+            if fails.len() >= 5 { return; }
+        }
+    }
+}
+
 const DIS: [Disambiguation; 4] = [Disambiguation::Compatible, Disambiguation::Earlier, Disambiguation::Later, Disambiguation::Reject];
 
 pub fn search(rng: &mut Rng, budget: u64, fails: &mut Vec<Failure>) {
@@ -130,6 +168,7 @@ pub fn search_gap(rng: &mut Rng, budget: u64, fails: &mut Vec<Failure>, max_gap:
             for _ in 0..6 {
                 let near = *at as i128 * 1_000_000_000 + (o0 as i128 + rng.range(-5 * 3600, 5 * 3600 + jump.abs() as i128)) * 1_000_000_000 + rng.range(0, 999_999_999);
                 for dis in DIS { check(&p, near, dis, "synthetic", fails); if fails.len() >= 5 { return; } }
+                if max_gap <= 3 * 3600 { check_offset(&p, near, DIS[(rng.next() % 4) as usize], rng, fails); if fails.len() >= 5 { return; } }
             }
         }
     }
